@@ -238,6 +238,58 @@ impl Arg for &mut u32 {
     fn consume(self, _: bool) {}
 }
 
+/// Plain data whose SIZE (12) is not its ALIGNMENT (4): an index or offset derived from addresses with the wrong
+/// unit is wrong for it and right for every primitive scalar.
+#[derive(Debug, Default, Clone, Copy, PartialEq)]
+pub struct P3 {
+    pub a: u32,
+    pub b: u32,
+    pub c: u32,
+}
+/// Plain two-byte data: a zip of arrays whose element SIZES differ (2 x 4, 4 x 2, 12 x 4)
+#[derive(Debug, Default, Clone, Copy, PartialEq)]
+pub struct H2(pub u16);
+macro_rules! plain_elem {
+    ($T:ty, $mk:expr, $id:expr) => {
+        impl Elem for $T {
+            const TRACKED: bool = false;
+            fn make(id: i64) -> $T {
+                $mk(id)
+            }
+            fn fresh() -> $T {
+                $mk(<u32 as Elem>::fresh() as i64)
+            }
+            fn id(&self) -> i64 {
+                $id(self)
+            }
+            fn release(self) {}
+        }
+        impl Arg for $T {
+            const OWNED: bool = false;
+            fn arg_id(&self) -> i64 {
+                $id(self)
+            }
+            fn consume(self, _: bool) {}
+        }
+        impl Arg for &$T {
+            const OWNED: bool = false;
+            fn arg_id(&self) -> i64 {
+                $id(*self)
+            }
+            fn consume(self, _: bool) {}
+        }
+        impl Arg for &mut $T {
+            const OWNED: bool = false;
+            fn arg_id(&self) -> i64 {
+                $id(&**self)
+            }
+            fn consume(self, _: bool) {}
+        }
+    };
+}
+plain_elem!(P3, |id: i64| P3 { a: id as u32, b: !(id as u32), c: 0xC0FFEE }, |p: &P3| if p.b == !p.a && p.c == 0xC0FFEE { p.a as i64 } else { -1 });
+plain_elem!(H2, |id: i64| H2(id as u16), |h: &H2| h.0 as i64);
+
 #[derive(Default)]
 pub struct Rec {
     pub calls: Vec<Vec<i64>>,
